@@ -110,6 +110,8 @@ class Gateway:
         self.loop = loop
         self.latency = latency
         self.next_channel = first_channel
+        self.first_channel = first_channel
+        self.channel_policy = "increasing"  # | "constant" | "recycled"
         self.channel: int | None = None  # connection the server regards as open
         self.transport: Any = None  # the client endpoint that connection lives on
         self.conn_type: ConnectRequestType | None = None
@@ -247,8 +249,14 @@ class Gateway:
             if isinstance(verdict, ErrorCode) and verdict is not ErrorCode.E_NO_ERROR:
                 self.send_body(ConnectResponse(communication_channel=0, status_code=verdict), lat, tr=tr)
                 return
+            # channel id policy: a fresh id every time / always the same id / a small pool handed out again and again
             ch = self.next_channel
-            self.next_channel = self.next_channel + 1 if self.next_channel < 250 else 10
+            if self.channel_policy == "constant":
+                pass
+            elif self.channel_policy == "recycled":
+                self.next_channel = self.first_channel + (self.next_channel - self.first_channel + 1) % 2
+            else:
+                self.next_channel = self.next_channel + 1 if self.next_channel < 250 else 10
             self.channel = ch
             self.transport = tr
             self.conn_type = body.cri.connection_type
@@ -306,6 +314,7 @@ class IterationInjector:
 
     `at(k, fn)`      : fn() runs as a ready callback of iteration k (the selector reported an event).
     `at(k, fn, 0.5)` : if iteration k would have slept, half of that sleep passes first.
+    `at(k, fn, -0.003)`: ... all of that sleep but the last 3 ms passes first (the event crosses the wake-up).
     `sleep_hook`     : called right before the loop sleeps (timeout > 0 or forever) - a quiescent point.
     Installed on the loop's selector wrapper instance; nothing in vloop.py changes.
     """
@@ -324,7 +333,11 @@ class IterationInjector:
             due = self.plan.pop(k, None)
             if due:
                 frac = max(f for f, _ in due)
-                if frac > 0 and timeout is not None and timeout > 0:
+                before_end = min((f for f, _ in due if f < 0), default=0.0)
+                if before_end < 0 and timeout is not None and timeout > 0:
+                    # a negative fraction is "so many seconds before the sleep ends": the event crosses the wake-up
+                    loop._vtime += max(0.0, timeout + before_end)
+                elif frac > 0 and timeout is not None and timeout > 0:
                     loop._vtime += timeout * frac
                 for _, fn in due:
                     loop.call_soon(fn)
